@@ -19,9 +19,14 @@ const (
 )
 
 func concBody(producers [][]int, limit int, withIdle, withWatch, slowJobs bool) func() {
+	return concBodyInit(producers, limit, withIdle, withWatch, slowJobs, 0)
+}
+
+// concBodyInit: the first ninit jobs of producer 0 are passed to the constructor as initial elements.
+func concBodyInit(producers [][]int, limit int, withIdle, withWatch, slowJobs bool, ninit int) func() {
 	return func() {
 		bg := context.Background()
-		q := conc.NewConcurrentQueue(limit)
+		var q *conc.ConcurrentQueue
 		njobs := 0
 		for _, p := range producers {
 			njobs += len(p)
@@ -57,8 +62,22 @@ func concBody(producers [][]int, limit int, withIdle, withWatch, slowJobs bool) 
 				fail("C18.counts", "%s reported queued=%d on an unlimited queue", where, queued)
 			}
 		}
+		{
+			var initial []func()
+			for _, j := range producers[0][:ninit] {
+				initial = append(initial, mkJob(j))
+				vsched.CtrSet(c18Enq0+j, 1)
+			}
+			q = conc.NewConcurrentQueue(limit, initial...)
+		}
 		for pi, jobs := range producers {
 			pi, jobs := pi, jobs
+			if pi == 0 {
+				jobs = jobs[ninit:]
+			}
+			if len(jobs) == 0 {
+				continue
+			}
 			// split the producer's jobs into consecutive Enqueue batches in every way
 			var batches [][]int
 			cur := []int{jobs[0]}
@@ -160,5 +179,8 @@ func init() {
 	reg("conc-l2-watch", "ConcurrentQueue limit 2: one producer, 3 jobs, a WatchState watcher", 1, 2, concBody([][]int{{0, 1, 2}}, 2, false, true, true))
 	reg("conc-l1-2p", "ConcurrentQueue limit 1: two producers (2 jobs in every split + 1 job), a WaitIdle caller", 1, 2, concBody([][]int{{0, 1}, {2}}, 1, true, false, false))
 	reg("conc-l2-2p", "ConcurrentQueue limit 2: two producers (2 jobs + 2 jobs, every split)", 1, 2, concBody([][]int{{0, 1}, {2, 3}}, 2, false, false, true))
+	reg("conc-l1-init", "ConcurrentQueue limit 1 constructed with 2 initial jobs, a third job enqueued, a WaitIdle caller", 2, 3, concBodyInit([][]int{{0, 1, 2}}, 1, true, false, false, 2))
+	reg("conc-l0-init", "ConcurrentQueue unlimited constructed with 3 initial instantaneous jobs, a WaitIdle caller and a WatchState watcher", 1, 2, concBodyInit([][]int{{0, 1, 2}}, 0, true, true, false, 3))
+	reg("conc-l2-init", "ConcurrentQueue limit 2 constructed with 3 initial jobs, a WaitIdle caller", 2, 3, concBodyInit([][]int{{0, 1, 2}}, 2, true, false, true, 3))
 	reg("conc-l1-4jobs", "ConcurrentQueue limit 1: one producer, 4 instantaneous jobs in every batch split", 2, 3, concBody([][]int{{0, 1, 2, 3}}, 1, false, false, false))
 }
